@@ -141,8 +141,16 @@ Init ==
   /\ out = [op |-> MkOp("Init", 0, 0, 0, <<>>, <<>>), id |-> 0, exc |-> {}, req |-> NoReq]
 
 (* ---- one named action per API operation (accepted / rejected) ------------- *)
-NsNew == \E c \in T.has, kw \in KW : Do(MkOp("NsNew", 0, 0, c, <<>>, kw), TRUE)
-NsNewRejected == \E c \in T.has, kw \in KW : Do(MkOp("NsNew", 0, 0, c, <<>>, kw), FALSE)
+\* b = 1: instantiate a SUBCLASS of the namespace class (inherits fields and association)
+\* (bounded: only for the topmost owner class and two field assignments)
+SubKW == {<<>>, <<<<1, 1>>>>}
+SubOK(c, kw, sb) == sb = 1 => (kw \in SubKW /\ \A k \in T.has : c <= k)
+NsNew ==
+  \E c \in T.has, kw \in KW, sb \in {0, 1} :
+    SubOK(c, kw, sb) /\ Do(MkOp("NsNew", 0, sb, c, <<>>, kw), TRUE)
+NsNewRejected ==
+  \E c \in T.has, kw \in KW, sb \in {0, 1} :
+    SubOK(c, kw, sb) /\ Do(MkOp("NsNew", 0, sb, c, <<>>, kw), FALSE)
 
 New ==
   \E c \in 0..N, i \in RaIds \cup {0}, nss \in NssOf(0) : Do(MkOp("New", i, 0, c, nss, <<>>), TRUE)
@@ -244,6 +252,11 @@ EqIsEquivalence ==
     /\ (Eq(obj[i], obj[j]) => Eq(obj[j], obj[i]))
     /\ (Eq(obj[i], obj[j]) /\ Eq(obj[j], obj[k]) => Eq(obj[i], obj[k]))
 
+\* the hash key of an object is Proj (class + values): whatever path built two objects and
+\* whichever namespace (sub)class their constituents are instances of, equal => same key
+EqualHashEqual ==
+  \A i, j \in Ids : Eq(obj[i], obj[j]) <=> Proj(obj[i]) = Proj(obj[j])
+
 \* update with no fields / convert to the same class / re-wrapping leave the VALUE unchanged
 NeutralOps ==
   out.id # 0 =>
@@ -259,7 +272,7 @@ SetSeq(S) == SetToSeq(S)
 \* exceptions, appended record or <<>> >>; the successor is the source plus the appended
 \* record.  The judgement of a state (relations every live object must satisfy) is
 \* printed once per distinct state by StateDump.
-HeapKey(o) == [i \in 1..Len(o) |-> <<o[i].k, o[i].c, o[i].v>>]
+HeapKey(o) == [i \in 1..Len(o) |-> <<o[i].k, o[i].c, o[i].v, o[i].s>>]
 OpArr(op) == <<op.op, op.a, op.b, op.cls, op.nss, op.kw>>
 Judge(o) ==
   [eq |-> SetSeq(EqPairs(o)), hd |-> SetSeq(ClassOnlyPairs(o)),
